@@ -25,7 +25,7 @@ MANIFEST = {
     "ref": "DESIGN.md §3 C02, §2.3",
 }
 
-FORMATS = ["h5", "xtc", "trr", "dcd", "nc", "mdcrd", "xyz", "xyz.gz", "lammpstrj", "gro", "pdb", "pdb.gz", "dtr", "arc"]
+FORMATS = ["h5", "xtc", "trr", "dcd", "fixed.dcd", "nc", "mdcrd", "xyz", "xyz.gz", "lammpstrj", "gro", "pdb", "pdb.gz", "dtr", "arc"]
 HAS_TOP = {"h5", "pdb", "pdb.gz", "lh5", "gro", "arc"}
 NATOMS = 8
 AI_MENU = [None, [0], [1, 3], [0, 2, 3, 6], [1, 2, 3, 4, 5, 6, 7]]
@@ -60,6 +60,35 @@ def _arc_file(repo, path, n):
                 fh.write("%6s  %-3s%16s%16s%16s" % tuple(w[:5]) + "".join("%6s" % x for x in w[5:]) + "\n")
 
 
+def _dcd_fixed_file(path, traj, fixed):
+    """A CHARMM DCD with FIXED atoms (NAMNF > 0), a layout mdtraj reads but never writes: the first frame holds all
+    atoms, every later frame only the free ones (the fixed atoms keep their first-frame coordinates)."""
+    import struct
+    xyz = traj.xyz * 10.0
+    nf, na = xyz.shape[:2]
+    free = [i for i in range(na) if i not in fixed]
+    xyz[:, fixed] = xyz[0, fixed]
+
+    def rec(b):
+        return struct.pack("<i", len(b)) + b + struct.pack("<i", len(b))
+    icntrl = [0] * 20
+    icntrl[0], icntrl[1], icntrl[2], icntrl[8] = nf, 0, 1, len(fixed)
+    icntrl[10], icntrl[19] = 1, 24
+    hdr = b"CORD" + struct.pack("<9i", *icntrl[:9]) + struct.pack("<f", 1.0) + struct.pack("<10i", *icntrl[10:])
+    out = rec(hdr) + rec(struct.pack("<i", 1) + b"fixed-atom DCD written by the verification harness".ljust(80)) + rec(struct.pack("<i", na))
+    out += rec(struct.pack("<%di" % len(free), *[i + 1 for i in free]))
+    L, A = traj.unitcell_lengths * 10.0, traj.unitcell_angles
+    for f in range(nf):
+        cell = [L[f, 0], np.cos(np.radians(A[f, 2])), L[f, 1], np.cos(np.radians(A[f, 1])), np.cos(np.radians(A[f, 0])), L[f, 2]]
+        out += rec(struct.pack("<6d", *cell))
+        idx = list(range(na)) if f == 0 else free
+        for k in range(3):
+            out += rec(np.asarray(xyz[f, idx, k], "<f4").tobytes())
+    with open(path, "wb") as fh:
+        fh.write(out)
+    return xyz / 10.0
+
+
 def make_files(scratch, repo, fmt, n, seed, copies=3):
     """Write `copies` different files of format fmt with n frames; returns list of paths and the topology."""
     paths = []
@@ -68,6 +97,8 @@ def make_files(scratch, repo, fmt, n, seed, copies=3):
         p = os.path.join(scratch, "c02_%s_%d_%d.%s" % (fmt.replace(".", "_"), n, c, fmt))
         if fmt == "arc":
             _arc_file(repo, p, n)
+        elif fmt == "fixed.dcd":
+            _dcd_fixed_file(p, _ref_traj(n, seed + 10 * c), [0, 3, 4])
         else:
             t = _ref_traj(n, seed + 10 * c)
             t.save(p)
